@@ -12,6 +12,9 @@ CLAIMED = {
  "C10": ("4.3", "seeded search over fault plans: run_ode/multi_run_ode integrate linear plants (stable to exponentially diverging) under controllers and plants that return NaN, +-inf, 1e50, -1e11 or exactly +-1e10 always / after t* / in windows narrower or wider than the output grid / at t=0 only / when a state leaves a box, plus bundled Stuart-Landau and Lorenz systems; every returned array is checked for the row invariants, control = controller(state,t) bit-equality, J/T/differentials against independent formulas (also on non-uniform sub-grids), the analytic solution for fault-free linear loops, and bounded liveness as a call budget. A clean batch is evidence, not proof.",
          "trusted: scipy RK45, math.fsum reference formulas, own matrix exponential; call budget calibrated x50 on the unchanged tree; stiff-but-legal closed loops are excluded from generation and never counted as non-termination",
          "deterministic simulation with fault injection (failing peers as pure functions of simulated time/state; bounded liveness; invariants over the recorded trajectory)"),
+ "C11": ("4.4", "seeded search over operation histories on one stateful objective object (evaluate with well-behaved, destabilising and NaN vectors, initialize, set_model with Python/njit/diverging/NaN-after-t model equations, set_raw, get_differentials, ModelObjective cycles, contract-violating calls); after every operation the value is compared bit-for-bit with a fresh objective on a freshly built instance and with the documented aggregate of independently recomputed per-case J, and the collected training data with a ledger that only raw-mode evaluations may extend. A clean batch is evidence, not proof.",
+         "trusted: run_ode/j_from_ode (decided by C10), numpy mean/log1p/expm1, numba; model equations and the synthetic system are simulator stubs",
+         "deterministic simulation with fault injection (interleaved operation histories on a shared stateful object vs. stateless reference model + ledger)"),
  "C14": ("4.1", "seeded search over histories of decodings that share one encoder object and one or two destination packings, with scribbled scratch/destination state injected between operations; every decode is compared row by row with an executable reference model of the documented bottom-left rule. A clean batch is evidence, not proof.",
          "trusted: the reference model in simkit/oracles/packing.py (derived from the module docstrings), numba, numpy, moptipy",
          "deterministic simulation with fault injection (shared-object operation histories + state scribbling vs. reference model)"),
